@@ -42,15 +42,16 @@ Fixpoint adel (k : ident) (a : attrs) : attrs :=
   | (k', v') :: r => if N.eqb k k' then adel k r else (k', v') :: adel k r
   end.
 (* d.update(kw) *)
-Definition aupdate (a kw : attrs) : attrs := fold_left (fun acc kv => aset (fst kv) (snd kv) acc) kw a.
+Definition aupdate (a kw : attrs) : attrs := fold_left (fun (acc : attrs) (kv : ident * vid) => aset (fst kv) (snd kv) acc) kw a.
 (* for k in ks: d.pop(k, None) *)
-Definition adiscard (ks : list ident) (a : attrs) : attrs := fold_left (fun acc k => adel k acc) ks a.
+Definition adiscard (ks : list ident) (a : attrs) : attrs := fold_left (fun (acc : attrs) (k : ident) => adel k acc) ks a.
 
 (* ---------- what Python does with values ---------- *)
 Record host := {
   h_str : vid -> vid;           (* str(v) *)
   h_eqc : vid -> vid;           (* representative of v's equality class: a == b iff h_eqc a = h_eqc b *)
-  h_entstr : ename -> vid       (* the string "DOMAIN.name" *)
+  h_entstr : ename -> vid;      (* the string "DOMAIN.name" *)
+  h_bool : bool -> vid          (* True / False *)
 }.
 
 (* ---------- Home Assistant's state machine ---------- *)
@@ -87,7 +88,7 @@ Definition attrs_pyeq (H : host) (a b : attrs) : bool :=
 Definition ha_write (H : host) (m : hamap) (e : ename) (s : vid) (a : attrs) : hamap :=
   match ha_get m e with
   | None => ha_put m e (s, a)
-  | Some (_, a0) => ha_put m e (s, if attrs_pyeq H a0 a then a0 else a)
+  | Some st0 => ha_put m e (s, if attrs_pyeq H (snd st0) a then snd st0 else a)
   end.
 (* hass.states.async_set(entity, value, attributes): the value is passed through str() *)
 Definition ha_async_set (H : host) (m : hamap) (e : ename) (v : vid) (a : attrs) : hamap :=
@@ -131,7 +132,7 @@ Definition all_off : deviations :=
 (* StateVal.__new__: __dict__ = attributes.copy(), then the virtual fields are assigned in source order *)
 Definition stateval_new (H : host) (e : ename) (st : hastate) : pyval :=
   PSnap (fst st)
-        (fold_left (fun d f => aset (fst f) (if snd f then h_entstr H e else v_time) d) stateval_new_fields (snd st)).
+        (fold_left (fun (d : attrs) (f : N * bool) => aset (fst f) (if snd f then h_entstr H e else v_time) d) stateval_new_fields (snd st)).
 
 (* parts[0] in service2args and parts[2] in service2args[parts[0]] *)
 Definition svc_method (svcargs : list (ident * ident)) (d k : ident) : bool :=
@@ -143,7 +144,7 @@ Definition state_exist (svcargs : list (ident * ident)) (m : hamap) (nm : sname)
   | [d; n; k] =>
       match ha_get m (d, n) with
       | None => false
-      | Some (_, a) => svc_method svcargs d k || amem k a || mem_ident k state_virtual_attrs || mem_ident k state_callable_attrs
+      | Some st => svc_method svcargs d k || amem k (snd st) || mem_ident k state_virtual_attrs || mem_ident k state_callable_attrs
       end
   | _ => false
   end.
